@@ -1144,9 +1144,8 @@ func (c *Conn) writeRequest(ctx *Ctx) error {
 
 	if hasBody {
 		pb := &pendingBody{
-			ctx:    ctx,
-			window: c.streamWindow,
-			size:   -1,
+			ctx:  ctx,
+			size: -1,
 		}
 
 		if bodyStream {
@@ -1159,7 +1158,13 @@ func (c *Conn) writeRequest(ctx *Ctx) error {
 			pb.body = req.Body()
 		}
 
+		// The window is read under the lock that applyInitialWindow changes it
+		// and walks the table under. Read any earlier, a SETTINGS frame handled
+		// in between changes the initial window without reaching this stream,
+		// which then sends by a window the server has taken back, or stalls
+		// short of one it has granted.
 		c.sendLck.Lock()
+		pb.window = c.streamWindow
 		c.pending[id] = pb
 		c.sendLck.Unlock()
 	}
